@@ -672,6 +672,18 @@ def du6_as_table(ctx):
     ctx.rule('DU6', "'as' flooring table", floor=5)
     b = rule_body(ctx, 'as_duration')
     ctx.fn(b)
+    # no result of the rule is selected by the size of the duration: a duration shorter than one target unit floors to zero of
+    # that unit, it is not refused (an Err leaves the phrase unconverted)
+    seen_guard = set()
+    for v_, inner_, conds_ in result_alternatives(b):
+        for d_, vv_ in conds_:
+            txt = render(d_)
+            if any(x[0] == 'binop' and x[1] in ('Lt', 'Le', 'Gt', 'Ge', 'Eq', 'Ne') for x in walk(d_)) and re.search(r'num_seconds\(|get_duration\(|num_(minutes|hours|days|weeks)\(', txt):
+                seen_guard.add(txt[:120])
+    if seen_guard:
+        ctx.finding('DU6', 'as_duration/value-guard', "what 'D as unit' yields is decided by a test on the size of D (%s): the statement floors every duration, also one shorter than the target unit" % sorted(seen_guard)[0], site=b.loc)
+    else:
+        ctx.ok('DU6', "no result of as_duration depends on a test of the duration's size", 'gamma', site=b.loc)
     by = constant_type_discr(ctx)
     length = {'Year': 365 * 86400, 'Month': 30 * 86400, 'Day': 86400, 'Week': 7 * 86400, 'Hour': 3600, 'Minute': 60, 'Second': 1}
     n_arms = 0
